@@ -107,11 +107,12 @@ def _sized(t: Tally, entry, kind, data, r, k, case, progress=False):
     import contextlib
     import io as _io
     try:
-        # the progress display writes to standard output: a captured stream, or none at all (sys.stdout is None under pythonw, in services
+        # the progress display writes to standard output: a captured stream, a stream that can only be written to, or none at all (sys.stdout is None under pythonw, in services
         # and with a closed descriptor 1, where print() is a silent no-op)
-        out_stream = None if (progress and (len(data) + (r or 0) + k) % 2) else _io.StringIO()
+        from mc.seams import WriteOnlyStream
+        out_stream = (None, _io.StringIO(), WriteOnlyStream())[(len(data) + (r or 0) + k) % 3] if progress else _io.StringIO()
         with case_alarm(20), observed_warnings(), contextlib.redirect_stdout(out_stream):
-            if kind in ("gzip", "buffered-over-short-raw"):
+            if kind in ("gzip", "buffered-over-short-raw", "device-reporting-length-0"):
                 from mc.checks.c02 import _file_family
                 src = _file_family(kind, data)
             else:
@@ -211,7 +212,7 @@ def _task_streams(task):
                     _sized(t, entry, "bytes", data, None, k, {**case, "cut": cut}, progress=True)
                     _sized(t, entry, "bytesio", data, 7, k, {**case, "cut": cut}, progress=True)
                     if entry == "ccsds":
-                        for fk in ("gzip", "buffered-over-short-raw"):
+                        for fk in ("gzip", "buffered-over-short-raw", "device-reporting-length-0"):
                             for r in (None, 7):
                                 _sized(t, entry, fk, data, r, k, {**case, "cut": cut})
                     rs = [None] + list(range(1, L + 2)) if entry == "ccsds" else [None, 1, 6, 7]
@@ -512,7 +513,7 @@ def run(ctx):
         "programs": tally.programs,
         "exhaustive": True,
         "bound": (f"every sequence of 1..{max_len} palette packets x prefix lengths {ks} cut at EVERY byte offset, for bytes, "
-                  "BytesIO with every read size (and with show_progress=True), a gzip file object and a BufferedReader over a 3-bytes-per-read raw stream (read sizes None, 7), read/write file handles as a producer leaves them (w+b, TemporaryFile, r+b appended, the generator object created before the writes / before the caller reads from the handle; 3..400 records written one write() each and not flushed; whole and cut by 1 or 9 bytes), file objects holding complete streams that the caller closes / rewinds after the first / the last packet (default read size, buffer-trim literal as shipped and rewritten to 0 and 17), and a scripted socket where the peer may close at every recv() choice point (also with show_progress=True, and as a message-preserving socket whose messages fit the read size, on the streams of <= 2 packets) "
+                  "BytesIO with every read size (and with show_progress=True), a gzip file object, a BufferedReader over a 3-bytes-per-read raw stream and one over a device-like raw stream whose seek() always answers 0 (read sizes None, 7), read/write file handles as a producer leaves them (w+b, TemporaryFile, r+b appended, the generator object created before the writes / before the caller reads from the handle; 3..400 records written one write() each and not flushed; whole and cut by 1 or 9 bytes), file objects holding complete streams that the caller closes / rewinds after the first / the last packet (default read size, buffer-trim literal as shipped and rewritten to 0 and 17), and a scripted socket where the peer may close at every recv() choice point (also with show_progress=True, and as a message-preserving socket whose messages fit the read size, on the streams of <= 2 packets) "
                   "under every fragmentation; all byte strings of length <= 2; all strings of length <= "
                   f"{8 if ctx.quick else 9} over {{00,01,FF}}; both ccsds_generator and packet_generator(header-only definition); in a second interpreter started with -bb: every sequence of <= 2 packets cut at every offset through bytes, BytesIO, a closing socket and a definition's generator"),
         "rule": ("one evaluation = one complete execution of a generator over one (stream, cut point / close point, source, read size, "
